@@ -589,6 +589,22 @@ for _q in ['treatment_group_size_range', '_control_group_size_generator',
       [('afterwards the geo index of geo_assignments is installed',
         installed)], ('C10',)))
 
+def _init_impacts(s):
+  imp = unwrap(s.self.geo_req_impact)
+  tag = unwrap(s.self.data.df).tag
+  f = z3.Function('ROWAPPLY', tag.sort(), I, R)
+  g = z3.Int('g!ii')
+  return z3.ForAll([g], z3.Implies(z3.IsMember(g, imp.labels.elems),
+                                   imp.val(g) == f(tag, g)))
+
+
+def _init_truncated(s):
+  tag0 = unwrap(s.old.data.df).tag
+  tag1 = unwrap(s.self.data.df).tag
+  trunc = z3.Function('LASTCOLS', tag0.sort(), I, tag0.sort())
+  return tag1 == trunc(tag0, -N(s.parameters.n_pretest_max))
+
+
 spec.contract(
     CLS + '.__init__',
     params={'data': TObj('TBRMMData'),
@@ -602,7 +618,12 @@ spec.contract(
            'self.parameters': lambda s: s.parameters},
     ensures=[('the object invariant every method assumes: data invariant, '
               'accepted parameters, one required impact per geo in the data',
-              lambda s: mm_inv(s.self))])
+              lambda s: mm_inv(s.self)),
+             ('the per-geo required impacts are computed from the panel as '
+              'the searches see it: the rows of data.df AFTER the truncation '
+              'to the last n_pretest_max dates', _init_impacts),
+             ('the panel is truncated to the last n_pretest_max dates',
+              _init_truncated)])
 
 LEMMAS = []
 FUNCTIONS = [
